@@ -23,6 +23,8 @@ import (
 // Modes:
 //   seq     sequential history of membership operations and broadcasts against the reference model
 //   matrix  (fixed plan) every membership matrix of 3 sockets x 3 rooms x every (T,E): 2^9 x 64 cases
+//   live    real server sockets: application tasks join and leave while the sockets are disconnected from
+//           either side or lose their connection; a disconnected socket must be in no room (c04live.go)
 //   conc    membership tasks run while broadcasts are in flight (the adapter releases its mutex around
 //           every callback), stalls on adapter_memory.go; interval semantics; never twice; membership
 //           operations additionally checked for linearizability (porcupine)
@@ -31,7 +33,7 @@ func init() {
 	Register(&Property{
 		ID: "C04", Title: "A broadcast reaches exactly the sockets its rooms and exclusions select, once",
 		Level: "exploration",
-		Modes: []Mode{{Name: "seq", Weight: 5}, {Name: "conc", Weight: 5}},
+		Modes: []Mode{{Name: "seq", Weight: 5}, {Name: "conc", Weight: 5}, {Name: "live", Weight: 2}},
 		Gen:   genC04, Run: runC04, Fixed: fixedC04,
 		QuickRuns: 8000, ThoroughRuns: 600000,
 		Rule: "plan = (adapter kind, 2..5 sockets, 2..4 rooms, history of join / leave / disconnect / SocketsJoin / SocketsLeave / DisconnectSockets / namespace broadcast (T,E) / socket broadcast (T,E) / operator reuse, sequential or spread over 2..5 tasks with timestamps, stall parameters focused on adapter_memory.go) from VERIF_SEED; " +
@@ -48,6 +50,10 @@ func init() {
 var c04Rooms = []string{"r0", "r1", "r2", "r3"}
 
 func genC04(p *sim.Plan, r *sim.Rand, tier string) {
+	if p.Mode == "live" {
+		genC04Live(p, r)
+		return
+	}
 	p.Set("session_aware", int64(r.Intn(2)))
 	ns := r.Range(2, 5)
 	nr := r.Range(2, 4)
@@ -275,6 +281,8 @@ func runC04(e *sim.Env) {
 		runC04Matrix(e)
 	case "conc":
 		runC04Conc(e)
+	case "live":
+		runC04Live(e)
 	}
 }
 
